@@ -28,7 +28,7 @@ type c18Plan struct {
 	Goroutines int      `json:"goroutines"`
 	Scripts    []string `json:"scripts"` // op kind per goroutine
 	Millis     int      `json:"millis"`
-	Deep       bool     `json:"deep"` // >1000 vertices first, so that truncation can run
+	Deep       bool     `json:"deep"`      // >1000 vertices first, so that truncation can run
 	RealLoop   bool     `json:"real_loop"` // node configured with Truncate=2000 and filled to just below weight 3001: the node's OWN truncation loop fires while the workload runs
 }
 
